@@ -11,29 +11,29 @@ import "fmt"
 // MinimumVersion) fall back to the Go function name and are reported as unbound
 // by the Coq side unless the model knows that name.
 var revisionLabels = map[string]string{
-	"appArmorProfile@1.0":           "appArmorProfile_1_0",
-	"capabilities_baseline@1.0":     "capabilitiesBaseline_1_0",
-	"hostNamespaces@1.0":            "hostNamespaces_1_0",
-	"hostPathVolumes@1.0":           "hostPathVolumes_1_0",
-	"hostPorts@1.0":                 "hostPorts_1_0",
-	"privileged@1.0":                "privileged_1_0",
-	"procMount@1.0":                 "procMount_1_0",
-	"seLinuxOptions@1.0":            "seLinuxOptions1_0",
-	"seLinuxOptions@1.31":           "seLinuxOptions1_31",
-	"seccompProfile_baseline@1.0":   "seccompProfileBaseline_1_0",
-	"seccompProfile_baseline@1.19":  "seccompProfileBaseline_1_19",
-	"sysctls@1.0":                   "sysctlsV1Dot0",
-	"sysctls@1.27":                  "sysctlsV1Dot27",
-	"sysctls@1.29":                  "sysctlsV1Dot29",
-	"sysctls@1.32":                  "sysctlsV1Dot32",
-	"windowsHostProcess@1.0":        "windowsHostProcess_1_0",
-	"allowPrivilegeEscalation@1.8":  "allowPrivilegeEscalation_1_8",
-	"allowPrivilegeEscalation@1.25": "allowPrivilegeEscalation_1_25",
-	"capabilities_restricted@1.22":  "capabilitiesRestricted_1_22",
-	"capabilities_restricted@1.25":  "capabilitiesRestricted_1_25",
-	"restrictedVolumes@1.0":         "restrictedVolumes_1_0",
-	"runAsNonRoot@1.0":              "runAsNonRoot_1_0",
-	"runAsUser@1.23":                "runAsUser_1_23",
+	"appArmorProfile@1.0":            "appArmorProfile_1_0",
+	"capabilities_baseline@1.0":      "capabilitiesBaseline_1_0",
+	"hostNamespaces@1.0":             "hostNamespaces_1_0",
+	"hostPathVolumes@1.0":            "hostPathVolumes_1_0",
+	"hostPorts@1.0":                  "hostPorts_1_0",
+	"privileged@1.0":                 "privileged_1_0",
+	"procMount@1.0":                  "procMount_1_0",
+	"seLinuxOptions@1.0":             "seLinuxOptions1_0",
+	"seLinuxOptions@1.31":            "seLinuxOptions1_31",
+	"seccompProfile_baseline@1.0":    "seccompProfileBaseline_1_0",
+	"seccompProfile_baseline@1.19":   "seccompProfileBaseline_1_19",
+	"sysctls@1.0":                    "sysctlsV1Dot0",
+	"sysctls@1.27":                   "sysctlsV1Dot27",
+	"sysctls@1.29":                   "sysctlsV1Dot29",
+	"sysctls@1.32":                   "sysctlsV1Dot32",
+	"windowsHostProcess@1.0":         "windowsHostProcess_1_0",
+	"allowPrivilegeEscalation@1.8":   "allowPrivilegeEscalation_1_8",
+	"allowPrivilegeEscalation@1.25":  "allowPrivilegeEscalation_1_25",
+	"capabilities_restricted@1.22":   "capabilitiesRestricted_1_22",
+	"capabilities_restricted@1.25":   "capabilitiesRestricted_1_25",
+	"restrictedVolumes@1.0":          "restrictedVolumes_1_0",
+	"runAsNonRoot@1.0":               "runAsNonRoot_1_0",
+	"runAsUser@1.23":                 "runAsUser_1_23",
 	"seccompProfile_restricted@1.19": "seccompProfileRestricted_1_19",
 	"seccompProfile_restricted@1.25": "seccompProfileRestricted_1_25",
 }
